@@ -197,3 +197,42 @@ func VerifPixel() {
 	vAssert("scan-flags-unchanged", p.spriteOverlaps[j] == pre.spriteOverlaps[j])
 	vReach("end")
 }
+
+// ---------- L3: which pixels a machine cycle renders ----------
+
+// One machine cycle at any point of the frame: exactly the four pixels x = 4(c-20)..+3 of line LY are written
+// when 20 <= c < 60 on lines 0-143, and no pixel otherwise (so with C13 every pixel of the 160x144 frame is
+// rendered exactly once per frame). Observed through the alpha byte, which every rendered pixel sets to 0xff.
+// Scene restricted to objects and window off to keep the four renderPixel calls small; the call sites do not
+// depend on those settings (C13 shows the mode schedule does not).
+func VerifRenderSchedule() {
+	l := newVerifLCD()
+	p := l.p
+	frame := p.frame
+	vHavoc("ppu", p)
+	p.frame = frame
+	vHavoc("pix", frame.Pix)
+	vHavoc("oam", l.o)
+	vHavoc("intr", l.intr)
+	vAssume(lcdInv(p))
+	vAssume(p.enabled && p.bgEnabled && !p.spritesEnabled && !p.windowEnabled && !p.debug)
+	for i := 0; i < 4; i++ {
+		vAssume(p.bgpColour[i] < 4)
+	}
+	px := vU8("px")
+	py := vU8("py")
+	vAssume(px < 160 && py < 144)
+	off := pixOff(int(px), int(py))
+	vAssume(frame.Pix[off+3] == 0)
+	r0, g0, b0 := frame.Pix[off], frame.Pix[off+1], frame.Pix[off+2]
+	t := p.ticks
+	line := t / 114
+	c := t % 114
+	p.EndMachineCycle()
+	rendered := line < 144 && c >= 20 && c < 60 && int(py) == line && int(px)/4 == c-20
+	vAssert("rendered-iff-scheduled", (frame.Pix[off+3] == 0xff) == rendered)
+	if !rendered {
+		vAssert("untouched-otherwise", frame.Pix[off] == r0 && frame.Pix[off+1] == g0 && frame.Pix[off+2] == b0 && frame.Pix[off+3] == 0)
+	}
+	vReach("end")
+}
